@@ -30,8 +30,7 @@ LEVEL_NOTE = ("Theorems are about exact arithmetic; IEEE rounding is not proved.
               "The XML covariance band is checked at network level by C12.")
 TECHNIQUE = "Lean 4 proof (ordered-field algebra, induction over the factorisation loops) + model/implementation correspondence"
 MODELLED = ["IEEE rounding (proofs over exact ordered fields)",
-            "envelope profile storage (dense model; C16 proves packed = dense)",
-            "homogenisation factor W with W'W = P (C10)"]
+            "envelope profile storage (dense model; C16 proves packed = dense)"]
 ASSUMPTIONS = ["rank numerically unambiguous: generator keeps exact small-integer/dyadic data so every pivot is 0 or O(1)"]
 
 ALGS = ["env", "chol", "gso", "svd"]
